@@ -179,7 +179,7 @@ func defsProjectPkg(b []byte) map[string]interface{} {
 	out["refs"], out["numrefs"], out["noterefs"] = refs, numrefs, noterefs
 
 	// styles part
-	styles, sver := []string{}, []map[string]interface{}{}
+	styles, sver, sbased := []string{}, []map[string]interface{}{}, []map[string]interface{}{}
 	if data, ok := defsPart(p, relStyles, "word/styles.xml"); ok {
 		sr, err := defsParse(data)
 		if err != nil {
@@ -198,9 +198,15 @@ func defsProjectPkg(b []byte) map[string]interface{} {
 			if v := defsVerOfSz(s.Path("rPr", "sz").A("val")); v != "base" {
 				sver = append(sver, map[string]interface{}{"id": id, "v": v})
 			}
+			// what a style the behaviour added through the style API is based on
+			if defsBasedIds[id] {
+				if on := s.Child("basedOn").A("val"); on != "" {
+					sbased = append(sbased, map[string]interface{}{"id": id, "on": on})
+				}
+			}
 		}
 	}
-	out["styles"], out["sver"] = styles, sver
+	out["styles"], out["sver"], out["sbased"] = styles, sver, sbased
 
 	// numbering part
 	nums, abss := []map[string]interface{}{}, []int{}
